@@ -555,6 +555,20 @@ namespace occa {
 
     void preprocessor_t::expandMacro(identifierToken &source,
                                      macro_t &macro) {
+      // Macros that are being expanded right now
+      // Reading the arguments of a function-like macro consumes tokens of
+      //   the enclosing expansions and may release them too early:
+      //     #define F(x) G(x)
+      //     #define G(x) F(x)
+      //     F(1) -> G(1) -> F(1) -> ...
+      macroVector activeMacros;
+      activeMacros.reserve(expandedMacros.size());
+      for (macroSet::iterator mIt = expandedMacros.begin();
+           mIt != expandedMacros.end();
+           ++mIt) {
+        activeMacros.push_back(mIt->first);
+      }
+
       tokenVector tokens;
       macro.expand(tokens, source);
 
@@ -573,6 +587,16 @@ namespace occa {
       // Set expanded macro info
       expandedMacros[&macro] = true;
       tokenMacros.push_back(&macro);
+      // Macros released while the arguments were read stay disabled
+      //   until the end of this expansion
+      const int activeCount = (int) activeMacros.size();
+      for (int i = 0; i < activeCount; ++i) {
+        macro_t *activeMacro = activeMacros[i];
+        if (expandedMacros.find(activeMacro) == expandedMacros.end()) {
+          expandedMacros[activeMacro] = true;
+          tokenMacros.push_back(activeMacro);
+        }
+      }
 
       // Insert tokens backwards into input cache
       for (int i = (tokenCount - 1); i >= 0; --i) {
